@@ -64,6 +64,22 @@ def run_c02(out, tier, seed, replay):
                         case = semlib.make_case(cid, p, pidx[p["name"]], v, ops, seed=seed * 1000 + s * 17 + pool)
                         cases.append(case)
                         meta[cid] = dict(case=case, inputs=c["inputs"], lm=c["lm"], prog=p)
+    # breadth family: many more input databases per program, one schedule each (faults of the parallel code path that do
+    # not depend on the schedule - index types, merge order - need the right database rather than the right interleaving)
+    nbroad = 40 if tier == "quick" else 300
+    nb = 0
+    for p in sel:
+        if (p["name"], "par") not in mods:
+            continue
+        for c in sem.select_cases(by.get(p["name"], []), nbroad, rnd):
+            cid += 1
+            pool = POOLS[cid % len(POOLS)]
+            ops = semlib.input_ops(p, c["inputs"], rnd) + [{"op": "run", "pool": pool}]
+            case = semlib.make_case(cid, p, pidx[p["name"]], "par" if cid % 3 else ("pari" if (p["name"], "pari") in mods else "par"), ops, seed=seed * 1000 + cid)
+            cases.append(case)
+            meta[cid] = dict(case=case, inputs=c["inputs"], lm=c["lm"], prog=p)
+            nb += 1
+    out.extra["breadth_cases"] = nb
     if replay:
         rec = json.load(open(replay))
         cases = [rec["case"]]
@@ -75,7 +91,7 @@ def run_c02(out, tier, seed, replay):
     out.extra["perturbation_seeds_per_case"] = nseeds
     out.rule = ("model: every interleaving of the ParHead protocol within the stated constants (exhaustive). implementation: every "
                 f"parallel-capable corpus program x parallel variants x pools {POOLS} x {nseeds} perturbation seeds on {ninputs} TLC-enumerated "
-                "inputs per program (largest databases first); a case = (program, variant, input, pool size, seed). Non-trivial = derived tuples exist.")
+                f"inputs per program (largest databases first), plus {nbroad} further enumerated inputs per program under one schedule each; a case = (program, variant, input, pool size, seed). Non-trivial = derived tuples exist.")
     out.assumptions = ["real thread schedules are sampled (perturbation points + pool sizes), not enumerated; the model's schedules are exhaustive",
                        "the serial macros are tied to the same oracle by C01"]
 
